@@ -3,6 +3,7 @@
 package parser
 
 import (
+	"reflect"
 	"strconv"
 
 	"github.com/benoitkugler/webrender/utils"
@@ -359,6 +360,54 @@ func vNameStartByte(c byte) bool {
 //@   loop 1 decreases L - tk.pos
 //@   loop 2 invariant 0 <= urlPos
 //@   loop 2 decreases L - urlPos
+
+// vPreprocessing: CSS Syntax 3 §3.3 (preprocessing the input stream): every CR LF pair, every other CR and
+// every FF becomes ONE LF, NUL becomes U+FFFD. The replacements are calls to bytes.ReplaceAll, outside the
+// contracts; the enumerator compares, for every byte string up to length 7 over CR, LF, FF, NUL, a letter, a
+// quote and a backslash, the tokens of the input with the tokens of its single-pass reference preprocessing
+// (which the preprocessing must leave alone), positions included.
+func vPreprocessing() (n int, fails []string) {
+	ref := func(b []byte) []byte {
+		var out []byte
+		for i := 0; i < len(b); i++ {
+			switch c := b[i]; c {
+			case '\r':
+				if i+1 < len(b) && b[i+1] == '\n' {
+					i++
+				}
+				out = append(out, '\n')
+			case '\f':
+				out = append(out, '\n')
+			case 0:
+				out = append(out, "\uFFFD"...)
+			default:
+				out = append(out, c)
+			}
+		}
+		return out
+	}
+	const alphabet = "\r\n\f\x00a\"\\"
+	var rec func(buf []byte)
+	rec = func(buf []byte) {
+		n++
+		got := Tokenize(append([]byte{}, buf...), false)
+		want := Tokenize(ref(buf), false)
+		if !reflect.DeepEqual(got, want) && len(fails) < 10 {
+			fails = append(fails, "Tokenize("+strconv.Quote(string(buf))+") differs from Tokenize of its preprocessed form "+strconv.Quote(string(ref(buf))))
+		}
+		if len(buf) == 7 {
+			return
+		}
+		for i := 0; i < len(alphabet); i++ {
+			rec(append(buf, alphabet[i]))
+		}
+	}
+	rec(make([]byte, 0, 8))
+	return n, fails
+}
+
+//@ bounded vPreprocessing Tokenize on every byte string up to length 7 over CR, LF, FF, NUL, a letter, a quote and a backslash against the tokens of its reference preprocessing (CSS Syntax 3 §3.3)
+//@   props C06
 
 // Tokenize never fails and consumes its whole input.
 //@ func Tokenize
